@@ -27,13 +27,13 @@ def build(ctx):
     ll = ctx.link_ir([shim, per], 'c26all')
     return ctx.translate(ll, ROOTS, 'c26.c', stubfiles=['common.stubs'], models=['cxx.c', 'stubs.c'], provided=['vf_range_cb'])
 
-def build_file(ctx, out='c26f.c', roots=FROOTS, provided=('vf_range_cb',), extra_ll=()):
+def build_file(ctx, out='c26f.c', roots=FROOTS, provided=('vf_range_cb',), extra_ll=(), models=None, stubfiles=None):
     """real FilePersister world: shim + persist.cpp + filepersist.cpp (message buffer scaled) + f8utils.cpp, file and ostream models"""
     shim = ctx.build_ir('c26.cpp', 'cut'); per = ctx.build_ir(REPO + '/runtime/persist.cpp', 'cut')
     fper = ctx.build_ir(REPO + '/runtime/filepersist.cpp', 'cut', extra=['-DFIX8_MAX_MSG_LENGTH=%d' % MSGLEN])
     ut = ctx.build_ir(REPO + '/runtime/f8utils.cpp', 'cut')
     ll = ctx.link_ir([shim, per, fper, ut] + list(extra_ll), out.replace('.c', '_all'))
-    return ctx.translate(ll, roots, out, stubfiles=['common.stubs', 'store.stubs'], models=['cxx.c', 'stubs.c', 'cxx_more.c', 'ostream_fmt.c', 'posixfs.c'], provided=list(provided))
+    return ctx.translate(ll, roots, out, stubfiles=stubfiles or ['common.stubs', 'store.stubs'], models=models or ['cxx.c', 'stubs.c', 'cxx_more.c', 'ostream_fmt.c', 'posixfs.c'], provided=list(provided))
 
 def opsname(sets): return '_'.join('%02x' % s for s in sets)
 
@@ -55,10 +55,11 @@ def run(ctx):
     for sets in (fq if ctx.tier == 'quick' else ft):
         k = len(sets)
         ctx.add(Harness('C26_file_k%d_%s' % (k, opsname(sets)), VERIF + '/harness/C26_file.c',
-                        defines=defs + ['K=%d' % k, 'VF_MAXCOPY=8', 'VF_FS_FSIZE=%d' % (16 * (k + 1))] + ['OPS%d=0x%x' % (i, s) for i, s in enumerate(sets)], unwind=k + 2,
+                        defines=defs + ['K=%d' % k, 'VF_MAXCOPY=8', 'VF_FS_FSIZE=%d' % (16 * (k + 2))] + ['OPS%d=0x%x' % (i, s) for i, s in enumerate(sets)], unwind=k + 2,
                         unwindset=FUS + ['main.3:%d' % (k + 2)], timeout=900 if ctx.tier == 'quick' else 3000, mem_gb=16, functions=FFUN, stubs=FSTUBS,
+                        nochecks=(ctx.tier == 'quick' and 0x40 in sets),     # range retrieval: pointer/overflow instrumentation only in the thorough tier (4x the formula)
                         bounds='initialise on an empty directory, then every sequence of %d operations where position i draws from op set %s {bit 0 put,1 control-put,2 get,3 control-get,4 last,5 nearest,6 range-get}, '
-                               'seqnums 0..6, payloads 1-2 symbolic bytes; FIX8_MAX_MSG_LENGTH scaled to %d in filepersist.cpp; files <= %d bytes' % (k, [hex(s) for s in sets], MSGLEN, 16 * (k + 1)),
+                               'seqnums 0..6, payloads 1-2 symbolic bytes; FIX8_MAX_MSG_LENGTH scaled to %d in filepersist.cpp; files <= %d bytes' % (k, [hex(s) for s in sets], MSGLEN, 16 * (k + 2)),
                         desc='real FilePersister over the POSIX file model against a reference map + control record'))
     ctx.assumptions += ['operator new never fails', 'rb-tree rebalancing replaced by an unbalanced BST with the same in-order sequence',
                         'range retrieval uses a non-virtual recording callback on an opaque Session (only Session::get_next_send_seq is read)',
